@@ -272,6 +272,47 @@ def expected_relpath(t_items, base_items):
     return out, T, (B, n)
 
 
+def canonicalize_error_obligation():
+    """relpath resolves the directory part of a name physically so that every spelling gets ONE key.  If that resolution fails
+    for a reason other than "no such directory" (EIO, EACCES, ESTALE ...) no key can be determined: the call must fail rather
+    than silently fall back to the lexical name (which would create a second record for a file reached through a symlink)."""
+    st = {}
+
+    class W(PathWorld):
+        def canonicalize(self, eng, p):
+            k = eng.choose(2, 'canonicalize: NotFound | EIO')
+            st['eio'] = bool(k)
+            if k:
+                eng.event('canonicalize', result='EIO')
+                return err(io_error('Other'))
+            eng.event('canonicalize', result='NotFound')
+            return err(io_error('NotFound'))
+
+    def run():
+        eng.world = W(False)
+        st['eio'] = False
+        name = sym_bytes(2, 'f')
+        for b in name:
+            eng.assume(z3.And(b != 47, b != 46, b != 0))
+        t = list(b'zzfail/') + name
+        st['t'] = t
+        return eng.call('relpath', [Bytes(t, 'Path'), Bytes(BASES[0], 'Path')], None, None)
+
+    def judge(outcome, val, path):
+        if outcome != 'ok':
+            return None
+        chk.goal('canonicalize fails with an I/O error', st['eio'])
+        if st['eio'] and val.var == 'Ok':
+            w = concretize(path, st['t'])
+            return {'role': 'relpath-swallows-io-error', 'kind': 'relpath-eio',
+                    'what': 'resolving the directory of the name fails with an I/O error, yet relpath answers with the lexical name',
+                    'witness': {'t_hex': hexs(w), 'base_hex': hexs(BASES[0]), 'cwd_hex': hexs(CWD)}}
+        return None
+
+    chk.explore('relpath: a failing directory resolution (other than NotFound) is an error', run, judge)
+    eng.world = PathWorld(False)
+
+
 def relpath_obligations(n, allow_exists):
     state = {}
     eng.world = PathWorld(allow_exists)
@@ -371,7 +412,8 @@ def concrete_relpath(t, base):
 
 
 def validate(rep):
-    src = open(os.path.join('/repo', 'src/helpers.rs')).read()
+    from lib import prep as _prep
+    src = open(os.path.join(_prep.REPO, 'src/helpers.rs')).read()
     # the repository's own unit-test inputs + seeded random inputs; the oracle is the *compiled* function
     vecs = re.findall(r'normpath_\w+: \("((?:[^"\\]|\\.)*)", "((?:[^"\\]|\\.)*)"\)', src)
     rnd = random.Random(chk.seed)
@@ -454,6 +496,26 @@ def make_replay(rep):
                 detail.append('%s: %s' % ('release' if release else 'dev', payload[0]))
                 ok_all = ok_all and rep_ok
             return ok_all, '; '.join(detail)
+        if c['kind'] == 'relpath-eio':
+            import subprocess
+            from lib import prep as _prep
+            root = os.path.join(_prep.SCRATCH_ROOT, 'root-%d' % os.getpid())
+            os.makedirs(root, exist_ok=True)
+            shim = os.path.join(root, 'shim.so')
+            r = subprocess.run(['cc', '-shared', '-fPIC', '-O1', '-o', shim, os.path.join(_prep.VERIF, 'replay', 'crashshim.c'), '-ldl'],
+                               stdout=subprocess.PIPE, stderr=subprocess.STDOUT)
+            if r.returncode != 0:
+                return False, 'cannot build the fault-injection shim: ' + r.stdout.decode()[-300:]
+            try:
+                os.makedirs(os.path.join(root, 'c/w/zzfail'), exist_ok=True)
+                payload, raw, rc = rep.run('state', 'relpath_batch', ['%s %s %s' % (w['cwd_hex'], w['t_hex'], w['base_hex'])],
+                                           env={'VERIF_REPLAY_ROOT': root, 'LD_PRELOAD': shim, 'VERIF_FAIL_REALPATH': 'zzfail'})
+            finally:
+                import shutil
+                shutil.rmtree(root, ignore_errors=True)
+            if len(payload) != 1:
+                return False, 'native run failed: ' + raw[-300:]
+            return payload[0].split(' ')[1] == 'OK', 'compiled relpath with realpath() failing EIO on the directory: ' + payload[0]
         if c['kind'] == 'relpath':
             root = os.path.join('/var/tmp/redo-verif', 'root-%d' % os.getpid())
             os.makedirs(root, exist_ok=True)
@@ -551,6 +613,7 @@ try:
         normpath_obligations(n)
     for n in range(0, N_REL + 1):
         relpath_obligations(n, False)
+    canonicalize_error_obligation()
     if chk.thorough():
         for n in range(0, min(N_REL, 5) + 1):
             relpath_obligations(n, True)
